@@ -158,11 +158,85 @@ var vpCDCLSkeletons = [][][]int{
 	{{1, 2}, {-1, -2}, {2, 3}, {-2, -3}, {3, 4}, {-3, -4}, {1, 4}, {-1, -4}},
 }
 
-// VP_C01_cnf_skeleton: fixed skeletons over 4-6 variables whose literal signs
-// are symbolic: verdict, model, and (optionally) the certificate.
+// vpPHP returns the pigeon-hole formula with p pigeons and h holes.
+func vpPHP(p, h int) [][]int {
+	v := func(i, j int) int { return (i-1)*h + j }
+	var cnf [][]int
+	for i := 1; i <= p; i++ {
+		var c []int
+		for j := 1; j <= h; j++ {
+			c = append(c, v(i, j))
+		}
+		cnf = append(cnf, c)
+	}
+	for j := 1; j <= h; j++ {
+		for i := 1; i <= p; i++ {
+			for k := i + 1; k <= p; k++ {
+				cnf = append(cnf, []int{-v(i, j), -v(k, j)})
+			}
+		}
+	}
+	return cnf
+}
+
+// vpRandom3SAT returns a fixed pseudo-random 3-SAT skeleton (LCG with the given seed).
+func vpRandom3SAT(n, m, seed int) [][]int {
+	x := uint32(seed)*2654435761 + 12345
+	next := func(k int) int {
+		x = x*1664525 + 1013904223
+		return int((x >> 8) % uint32(k))
+	}
+	var cnf [][]int
+	for j := 0; j < m; j++ {
+		var c []int
+		for len(c) < 3 {
+			v := next(n) + 1
+			dup := false
+			for _, l := range c {
+				if l == v || l == -v {
+					dup = true
+				}
+			}
+			if dup {
+				continue
+			}
+			if next(2) == 1 {
+				v = -v
+			}
+			c = append(c, v)
+		}
+		cnf = append(cnf, c)
+	}
+	return cnf
+}
+
+// vpBigSkeleton: skeletons that need tens of conflicts (index 100+).
+func vpBigSkeleton(k int) [][]int {
+	switch k {
+	case 0:
+		return vpPHP(4, 3)
+	case 1:
+		return vpRandom3SAT(8, 34, zzvp.Param("seed", 0)+1)
+	case 2:
+		return vpRandom3SAT(10, 42, zzvp.Param("seed", 0)+2)
+	default:
+		return vpPHP(5, 4)
+	}
+}
+
+// VP_C01_cnf_skeleton: fixed skeletons whose literal signs are symbolic:
+// verdict, model, and (optionally) the certificate. For skeletons with more
+// than 8 variables the verdict is validated through the answer itself: a Sat
+// model is checked against the clauses, an Unsat answer through its
+// certificate replayed by the independent RUP procedure.
 func VP_C01_cnf_skeleton() {
 	zzvp.IntMode(true)
-	sk := vpCDCLSkeletons[zzvp.Choose("skeleton", zzvp.Param("nskel", len(vpCDCLSkeletons)))]
+	var sk [][]int
+	if nb := zzvp.Param("big", 0); nb > 0 {
+		sk = vpBigSkeleton(zzvp.Param("bigfirst", 0) + zzvp.Choose("skeleton", nb))
+	} else {
+		sk = vpCDCLSkeletons[zzvp.Choose("skeleton", zzvp.Param("nskel", len(vpCDCLSkeletons)))]
+	}
 	maxSym := zzvp.Param("maxsigns", 8)
 	n, cnt := 0, 0
 	var cnf, orig [][]int
@@ -209,7 +283,11 @@ func VP_C01_cnf_skeleton() {
 		}
 	}
 	sat := false
-	for a := 0; a < 1<<uint(n) && !sat; a++ {
+	if n > 8 {
+		zzvp.Assert(cert, "skeletons with more than 8 variables are validated through their certificate")
+		sat = st == Sat // validated below: model (Sat) or certificate (Unsat)
+	}
+	for a := 0; n <= 8 && a < 1<<uint(n) && !sat; a++ {
 		all := true
 		for _, cl := range F {
 			ok := false
@@ -248,6 +326,13 @@ func VP_C01_cnf_skeleton() {
 	if s.Stats.NbDeleted > 0 {
 		zzvp.Reach("deleted")
 	}
+	if s.Stats.NbConflicts >= 10 {
+		zzvp.Reach("ten-conflicts")
+	}
+	if s.Stats.NbRestarts > 0 {
+		zzvp.Reach("restarted")
+	}
+	zzvp.Obs("conflicts", s.Stats.NbConflicts)
 	if cert {
 		var lines []string
 		for len(s.CertChan) > 0 {
@@ -262,8 +347,11 @@ func VP_C01_cnf_skeleton() {
 			}
 			if st == Unsat {
 				zzvp.Assert(vpRUP(db, n, c), "certificate line is not derivable by unit propagation")
-			} else {
+			} else if n <= 8 {
 				zzvp.Assert(vpImplied(F, n, c), "a clause emitted on a satisfiable formula is not a consequence of it")
+			} else {
+				// RUP derivability implies consequence; learned clauses are RUP by construction
+				zzvp.Assert(vpRUP(db, n, c), "a clause emitted on a satisfiable formula is not derivable by unit propagation")
 			}
 			db = append(db, c)
 			zzvp.Reach("line")
